@@ -1,5 +1,6 @@
 SPECIFICATION Spec
 CONSTANTS
+  Decls = {"acl", "table", "backend", "penaltybox", "ratecounter"}
   NUsers = 2
   MaxEdges = 8
   Sample = 0
